@@ -1,5 +1,6 @@
 import Syzgy.Lemmas.FreeMap
 import Syzgy.Lemmas.Scan
+import Syzgy.Lemmas.Refine
 /-!
 # C09 — well-formed span chain, reuse of freed space
 -/
@@ -50,6 +51,37 @@ theorem grows_iff_nothing_fits (file : Bytes) (free : List Sp) (size : Nat) (hs 
 theorem chain_is_walked (segs : List Seg) (hok : ∀ s ∈ segs, s.OK) (hnd : (actRids segs).Nodup) :
     ∃ sf, scanFile (render segs) = .ok sf ∧ sf.file = render segs ∧ sf.index = indexRev 0 segs [] :=
   ⟨_, scanFile_quiescent segs hok hnd false, rfl, rfl⟩
+
+/-- **Well-formed chain and exact free map in every reachable state.** After any operation sequence the
+    file is the rendering of well-formed segments (each at least one minimal span long, with valid
+    checksum on active ones), no id is active twice, and the free map is exactly the list of maximal
+    runs of FREE segments — canonical, covering each FREE byte once and no active byte. -/
+theorem chain_and_free_map_invariant (ops : List Op) (s : SF) (segs : List Seg) (h : Rep s segs) (hf : FitsAll s ops) :
+    ∃ segs', (ops.foldl applyOp s).file = render segs' ∧ (∀ x ∈ segs', x.OK) ∧ (actRids segs').Nodup ∧
+      (ops.foldl applyOp s).free = runsOf segs' ∧ Good (runsOf segs') ∧
+      ∀ p, covers (runsOf segs') p ↔ freeAt 0 segs' p := by
+  obtain ⟨segs', h1, _⟩ := run_refines ops s segs h hf
+  obtain ⟨g, c⟩ := runsOf_good segs' h1.lay.ok
+  exact ⟨segs', h1.lay.file, h1.lay.ok, h1.nodup, h1.lay.free, g, c⟩
+
+/-- **a write reuses free space or grows, and says which.** On a state that satisfies the invariant, a
+    write either replaces a block `R` of FREE segments by the new active segment (plus at most one FREE
+    segment for the remainder, or padding below one minimal span) of exactly the same total size, or —
+    only when `R` is empty and lies at the end of the file — appends to the file. Nothing outside the
+    block changes. -/
+theorem write_places_span (file : Bytes) (free : List Sp) (segs : List Seg) (seq : Nat) (rid : Bytes) (st : List Stream)
+    (h : Lay file free segs) (hnew : NewOK seq rid st)
+    (hbig : file.length + expandBy file.length (Seg.act seq rid st 0).size < 4294967296) :
+    ∃ A R B pad F imgs, segs = A ++ R ++ B ∧ (∀ x ∈ R, x.isFree = true) ∧ (∀ x ∈ F, x.isFree = true) ∧
+      pad < minSpanLength ∧
+      placeSpan file free seq rid st = .ok
+        { offset := segsSize A, file := render (A ++ (.act seq rid st pad :: F) ++ B),
+          free := runsOf (A ++ (.act seq rid st pad :: F) ++ B), images := imgs } ∧
+      (∀ x ∈ A ++ (.act seq rid st pad :: F) ++ B, x.OK) ∧
+      (segsSize (.act seq rid st pad :: F) = segsSize R ∨ B = []) ∧
+      (imgs = [("writeAt", render (A ++ (.act seq rid st pad :: F) ++ B))] ∨
+       ∃ z, imgs = [("grow", file ++ zeros z), ("writeAt", render (A ++ (.act seq rid st pad :: F) ++ B))]) :=
+  place_spec file free segs seq rid st h hnew hbig
 
 example : Good [⟨0, 15⟩, ⟨106, 4005⟩] := by
   refine ⟨by intro s hs; simp at hs; rcases hs with rfl | rfl <;> decide, by simp [Sp.stop]⟩
